@@ -36,6 +36,8 @@ class Plan(object):
         self.hook_faults_named = dict(((n, i), e) for n, i, e in program.get("hook_faults_named") or [])
         # faults by hook name + element that are raised only in ONE auto-retry attempt: [[hook name, ident, kind, attempt]]
         self.hook_faults_attempts = dict(((n, i, int(a)), e) for n, i, e, a in program.get("hook_faults_attempts") or [])
+        # message of the exception that a raising cleanup raises (hostile text for the reporters)
+        self.cleanup_msg = program.get("cleanup_msg")
         self.hook_cleanups = {}
         for c in program.get("cleanups", []):
             self.hook_cleanups.setdefault(int(c["at"]), []).append(c)
@@ -75,7 +77,7 @@ def make_cleanup(plan, cid, raises):
         plan.cleanup_log.append(cid)
         plan.cleanup_pos.append((cid, len(plan.hooks)))
         if raises:
-            raise RuntimeError("cleanup %s raises" % cid)
+            raise RuntimeError(plan.cleanup_msg if plan.cleanup_msg is not None else "cleanup %s raises" % cid)
     cleanup.__name__ = "cleanup_%s" % cid
     return cleanup
 
@@ -137,6 +139,10 @@ def make_hooks(plan):
                         args[0].skip()
                     else:
                         args[0].mark_skipped()
+            elif exc == "no_background":
+                # public switch (since 1.2.7): this scenario runs without the inherited background steps
+                if name == "before_scenario" and args:
+                    args[0].use_background = False
             elif exc == "skip_feature":
                 # documented: feature.skip() may be called on a partly executed feature (fail-fast per feature)
                 if name == "after_scenario":
